@@ -479,14 +479,27 @@ def register_limit_scenarios(tier, rng):
         "layout-centre": lambda: layout.define_register(4, 3),
         "mappable": lambda: layout.make_mappable_register(4),
     }
-    limits = [dict(max_atom_num=3), dict(min_atom_distance=7.0), dict(max_radial_distance=5), dict(max_atom_num=4), dict(max_radial_distance=20)]
+    from pulser.register.register_layout import RegisterLayout
+
+    lay7 = RegisterLayout([[6.0 * i, 0.0] for i in range(7)])
+    lay11 = RegisterLayout([[6.0 * i, 0.0] for i in range(11)])
+    regs.update({
+        # filling fractions whose product with the number of traps is not an integer
+        "layout-4-of-7": lambda: lay7.define_register(0, 1, 2, 3),
+        "layout-3-of-7": lambda: lay7.define_register(0, 1, 2),
+        "mappable-4-of-7": lambda: lay7.make_mappable_register(4),
+        "layout-6-of-11": lambda: lay11.define_register(0, 1, 2, 3, 4, 5),
+    })
+    limits = [dict(max_atom_num=3), dict(min_atom_distance=7.0), dict(max_radial_distance=5), dict(max_atom_num=4), dict(max_radial_distance=20),
+              dict(max_layout_filling=0.5), dict(max_layout_filling=0.4)]
     for (rname, mk), lim in itertools.product(regs.items(), limits):
         case = dict(scenario="register-limits", register=rname, limits=lim)
         with warnings.catch_warnings():
             warnings.simplefilter("ignore")
             try:
                 dev2 = dataclasses.replace(MockDevice, name="Tight", **lim)
-                seq = Sequence(mk(), MockDevice)
+                roomy = dataclasses.replace(MockDevice, name="Roomy", max_layout_filling=1.0)
+                seq = Sequence(mk(), roomy)
                 seq.declare_channel("g", "rydberg_global")
                 seq.add(Pulse.ConstantPulse(100, 1.0, 0.0, 0.0), "g")
             except Exception as e:  # noqa: BLE001
@@ -494,7 +507,7 @@ def register_limit_scenarios(tier, rng):
                 continue
             try:
                 s2 = seq.switch_device(dev2, strict=False)
-                if rname == "mappable":
+                if rname.startswith("mappable"):
                     s2 = s2.build(qubits={"q0": 0, "q1": 1, "q2": 2, "q3": 3})
             except Exception:  # noqa: BLE001
                 continue  # "... or the call raises"
@@ -506,6 +519,9 @@ def register_limit_scenarios(tier, rng):
                 v.append(Violation("nonstrict-switch:register-too-many-atoms", f"{rname}: {n} atoms on a device with max_atom_num={lim['max_atom_num']}", case))
             if "min_atom_distance" in lim and dmin < lim["min_atom_distance"] - 1e-6:
                 v.append(Violation("nonstrict-switch:register-atoms-too-close", f"{rname}: minimum distance {dmin} < {lim['min_atom_distance']}", case))
+            lay = getattr(s2.register, "layout", None)
+            if "max_layout_filling" in lim and lay is not None and n > lim["max_layout_filling"] * lay.number_of_traps + 1e-9:
+                v.append(Violation("nonstrict-switch:layout-overfilled", f"{rname}: {n} atoms on {lay.number_of_traps} traps, max_layout_filling={lim['max_layout_filling']}", case))
             if "max_radial_distance" in lim and rad > lim["max_radial_distance"] + 1e-6:
                 v.append(Violation("nonstrict-switch:register-too-wide", f"{rname}: radius {rad} > {lim['max_radial_distance']}", case))
     return v
